@@ -257,7 +257,7 @@ func (b *c31Base) judge(c *core.Ctx, caseID, route, mut string, ticket []byte, w
 		c.Count("resumed:"+vk+":"+mclass, 1)
 	} else {
 		if ss.Resumed || (ss.OK && cs.Resumed) {
-			c.Violation(fmt.Sprintf("resumed_from_inauthentic_ticket:%s:%s:%s", vk, route, mclass), fmt.Sprintf("server DidResume=%v client DidResume=%v (server err %v, client err %v)", ss.Resumed, cs.Resumed, ss.Err, cs.Err), caseID, obs)
+			c.Violation(fmt.Sprintf("resumed_although_ticket_must_not_resume:%s:%s:%s", vk, route, mclass), fmt.Sprintf("server DidResume=%v client DidResume=%v (server err %v, client err %v)", ss.Resumed, cs.Resumed, ss.Err, cs.Err), caseID, obs)
 			return
 		}
 		if !cs.OK || !ss.OK || !cs.Complete || !ss.Complete {
@@ -375,7 +375,14 @@ func runC31(c *core.Ctx) {
 	reps := c.Pick(1, 12)
 	for rep := 0; rep < reps; rep++ {
 		for si := 0; si < nspec; si++ {
-			c31Mutations(c, c31Specs[si], rep, si)
+			// unit of work = (session, half of its mutation list); a unit is never split, so the
+			// enumerations over one ticket are complete even though certificates (and with them
+			// ticket lengths) differ from process to process
+			for part := 0; part < 2; part++ {
+				if ((rep*nspec+si)*2+part)%c.NShards == c.Shard {
+					c31Mutations(c, c31Specs[si], rep, si, part)
+				}
+			}
 		}
 	}
 	c31Histories(c)
@@ -383,7 +390,7 @@ func runC31(c *core.Ctx) {
 }
 
 // c31Mutations: one base session, all ticket mutations (split over the shards by mutation index).
-func c31Mutations(c *core.Ctx, spec c31Spec, rep, si int) {
+func c31Mutations(c *core.Ctx, spec c31Spec, rep, si, part int) {
 	label := fmt.Sprintf("%s#%d", spec.Name, rep)
 	gr := c.GlobalRng("session:" + label)
 	seed := gr.Uint64() | 1
@@ -444,7 +451,7 @@ func c31Mutations(c *core.Ctx, spec c31Spec, rep, si int) {
 	c.Max("ticket_len:"+spec.Name, len(b.Ticket))
 
 	// controls (every shard): the unmodified ticket resumes, also on the server that holds an extra key
-	if c.Shard == (si+rep)%c.NShards {
+	if part == 1 {
 		for i, srv := range []*ztls.Config{zs, zsBoth} {
 			cs, ss, onWire, to := b.present(c, srv, b.Ticket, "cache", seed+100+uint64(i))
 			if to {
@@ -461,7 +468,8 @@ func c31Mutations(c *core.Ctx, spec c31Spec, rep, si int) {
 	}
 	nflip, ntrunc := 0, 0
 	for mi, m := range muts {
-		if mi%c.NShards != c.Shard {
+		isFlip := len(m.Name) > 5 && m.Name[:5] == "flip@"
+		if isFlip != (part == 0) {
 			continue
 		}
 		if bytes.Equal(m.Ticket, b.Ticket) {
@@ -491,8 +499,14 @@ func c31Mutations(c *core.Ctx, spec c31Spec, rep, si int) {
 			ntrunc++
 		}
 	}
-	c.Exhaustive("single_byte_flip_positions:"+label, int64(nflip))
-	c.Exhaustive("truncation_lengths:"+label, int64(ntrunc))
+	if part == 0 {
+		if nflip != len(b.Ticket) {
+			c.Violation("harness:flip_enumeration_incomplete", fmt.Sprintf("%d of %d", nflip, len(b.Ticket)), label, spec)
+		}
+		c.Exhaustive(fmt.Sprintf("single_byte_flip_positions:%s(len %d)", label, len(b.Ticket)), int64(nflip))
+	} else {
+		c.Exhaustive(fmt.Sprintf("truncation_lengths:%s(len %d)", label, len(b.Ticket)), int64(ntrunc))
+	}
 }
 
 // c31Histories: SetSessionTicketKeys rotation histories; every ticket issued so far is presented in every later epoch.
@@ -610,7 +624,7 @@ func c31Lifetimes(c *core.Ctx) {
 		spec := c31Specs[[]int{0, 1, 4, 3}[i%4]]
 		label := fmt.Sprintf("life%04d:%s", i, spec.Name)
 		seed := gr.Uint64() | 1
-		auto := i%2 == 0 // automatic rotation (no explicit keys) vs explicit key
+		auto := (i/4)%2 == 0 // automatic rotation (no explicit keys) vs explicit key
 		var offset time.Duration
 		now := func() time.Time { return tlspair.Now.Add(offset) }
 		zs := spec.serverConfig(seed, now)
@@ -679,6 +693,24 @@ func c31Lifetimes(c *core.Ctx) {
 				cs, ss, onWire, to = alt.presentTwoSuites(c, z3, seed+202)
 				if !to {
 					b.judge(c, label+"/suite_dropped", "cache", "session_suite_disabled_on_server", b.Ticket, false, cs, ss, onWire, label, "suite_dropped")
+				}
+			}
+		}
+		// the client no longer offers the session's suite but still sends the genuine ticket (only the fingerprint
+		// route can do that: the regular client drops the ticket itself): the server must not resume
+		if !auto && spec.Name == "tls10-ecdsa-cbc" {
+			z4 := spec.serverConfig(seed+8, now)
+			z4.SetSessionTicketKeys([][32]byte{key.Key})
+			z4.CipherSuites = []uint16{0xc009, 0xc00a}
+			alt := *b
+			alt.Spec.Suite = 0xc00a
+			cs, ss, onWire, to := alt.present(c, z4, b.Ticket, "public", seed+203)
+			if !to {
+				nb := *b
+				nb.Vers, nb.Suite = b.Vers, b.Suite
+				nb.judge(c, label+"/suite_not_offered", "public", "session_suite_not_offered_by_client", b.Ticket, false, cs, ss, onWire, label, "suite_not_offered")
+				if ss.OK && ss.Suite != 0xc00a {
+					c.Violation("suite_not_offered_by_client_negotiated", fmt.Sprintf("server negotiated %04x, client offered only c00a", ss.Suite), label, spec)
 				}
 			}
 		}
